@@ -397,7 +397,7 @@ class Gen:
                     hsubsts.append((m.group(1).replace('\\n', '\n'), m.group(2).replace('\\n', '\n'))); continue
                 if dd == 'nobody':
                     nobody = True; continue
-                m = re.match(r'eta\s+(\w+)$', dd)
+                m = re.match(r'eta\s+([\w:]+)$', dd)
                 if m:
                     etas.append(m.group(1)); continue
                 if dd.startswith('+'):
